@@ -52,9 +52,10 @@ def groupContains (g : Grp) (key : List String) : Bool := (getPath g key).isSome
 def groupGetItem (g : Grp) (name : String) : Out Node := getItem g name
 /-- `group.keys()` -/
 def memberKeys (g : Grp) : List String := keys g
-/-- `group.array_keys()` -/
-def arrayKeys (g : Grp) : List String :=
-  (g.filter fun kv => match kv.2 with | .array _ => true | .group _ => false).map (·.1)
+/-- `group.array_keys()`: the member names under which the group holds an array.  (A `Grp` is an
+association list that denotes the mapping `get`, first entry wins; a zarr group has one member per
+name.) -/
+def arrayKeys (g : Grp) : List String := (keys g).filter fun k => isArrayNode (get g k)
 
 /-- `isinstance(x, zarr.Array)` / `isinstance(x, zarr.Group)` on the result of `group.get` -/
 def isZarrArray : Option Node → Bool | some (.array _) => true | _ => false
@@ -122,6 +123,11 @@ def dictLen {β : Type} (d : List (String × β)) : Nat := d.length
 /-- `x in l` for a list / a set of strings -/
 def strIn (x : String) (l : List String) : Bool := l.contains x
 
+/-- `set(l)` of a list of names: only membership is observed -/
+def pySet (l : List String) : List String := l
+/-- `group.group_keys()` -/
+def groupKeys (g : Grp) : List String := Geff.Structure.groupKeys g
+
 /-! ## metadata -/
 
 /-- `Axis`: the field structural validation reads -/
@@ -140,6 +146,9 @@ def iterOptList {α : Type} : Option (List α) → Out (List α)
   | some l => pure l
   | none => raiseTypeError
 
+/-- `open_storelike(store)` (`core_io/_utils.py`; not translated: path / URL / zarr-version handling is
+outside the abstract store) -/
+def openStorelike (t : Target) : Out Grp := Geff.Structure.openStorelike t
 /-- `GeffMetadata.read(store)` -/
 def geffMetadataRead (t : Target) : Out Meta := readMetadata t
 
